@@ -24,7 +24,14 @@ DoEncodeRefused == \E c \in Codecs, x \in D : EncodeRefused(c, x)
 DoDecode == \E c \in Codecs, b \in Blobs, n \in Lens :
                \E r \in AcceptedDecodeResults(c, b, n, D) : Decode(c, b, n, r[1], r[2])
 
-Next == DoTrain \/ DoTrainRefused \/ DoEncode \/ DoEncodeRefused \/ DoDecode
+(* batches of one or two pairs, blob ids fresh *)
+Item(x, eok, b, n, dok, y) == [x |-> x, eok |-> eok, b |-> b, n |-> n, dok |-> dok, y |-> y]
+DoRoundtrips ==
+    \E c \in Codecs, x1 \in D, x2 \in D, y1 \in D, y2 \in D, e2 \in BOOLEAN, d1 \in BOOLEAN :
+        /\ Fresh + 1 \in Blobs
+        /\ Roundtrips(c, << Item(x1, TRUE, Fresh, x1.len, d1, y1), Item(x2, e2, Fresh + 1, x2.len, TRUE, y2) >>)
+
+Next == DoTrain \/ DoTrainRefused \/ DoEncode \/ DoEncodeRefused \/ DoDecode \/ DoRoundtrips
 Spec == CSInit /\ [][Next]_csvars
 
 TypeInv == TypeOK(Codecs, D, Blobs)
@@ -42,6 +49,13 @@ WrongNeverAccepted ==
     \A c \in Codecs, b \in Blobs, n \in Lens : Matching(c, b, n) =>
         /\ \A y \in D : ~ENABLED Decode(c, b, n, FALSE, y)
         /\ \A y \in D \ {enc[b].x} : ~ENABLED Decode(c, b, n, TRUE, y)
+(* a batch is accepted exactly when the sequence of its Encode / Decode steps is: the first pair must   *)
+(* come back unchanged, the second one too unless its encode was refused                               *)
+BatchIsSequence ==
+    [][\A c \in Codecs, x1 \in D, x2 \in D, y1 \in D, y2 \in D, e2 \in BOOLEAN, d1 \in BOOLEAN :
+         (Fresh + 1 \in Blobs) =>
+           ((ENABLED Roundtrips(c, << Item(x1, TRUE, Fresh, x1.len, d1, y1), Item(x2, e2, Fresh + 1, x2.len, TRUE, y2) >>))
+             <=> (d1 /\ y1 = x1 /\ (e2 => y2 = x2)))]_csvars
 (* blob ids are dense and a blob's record never changes *)
 BlobsDense == DOMAIN enc = 1..Cardinality(DOMAIN enc)
 BlobsImmutable == [][\A b \in DOMAIN enc : b \in DOMAIN enc' /\ enc'[b] = enc[b]]_csvars
